@@ -299,6 +299,9 @@ func genWorld(tape *kernel.Tape, env *kernel.Env, idx int) (*world, bool) {
 	}
 	setFault := func(st *kernel.Stream, data []byte, what string) {
 		off := tape.Choose(len(data)+1, "err-off")
+		if len(data) >= 513 && tape.Bool(3, "fault-at-the-sniffing-window-edge") {
+			off = []int{511, 512, 513}[tape.Choose(3, "window-edge")]
+		}
 		if transient {
 			st.TransientErrAt = off
 			return
